@@ -35,7 +35,7 @@ _DATA = (r"(erltf::|erltf_serde::|edp_client::|edp_elixir_terms::|terms::RV|byte
          r"std::vec::Vec<|std::boxed::Box<|std::sync::Arc<|std::collections::BTreeMap<|std::borrow::Cow<|std::io::Error|"
          r"std::io::error|nom::|std::option::Option<|std::result::Result<|\(|\[)")
 T1_DEFAULT = [
-    r"^std::ptr::drop_in_place::<%s.*>$" % _DATA,
+    r"^std::ptr::drop_(in_place|glue)::<%s.*>$" % _DATA,
     r"^<(std::vec::Vec<|alloc::raw_vec::RawVec|std::boxed::Box<|std::sync::Arc<|std::collections::BTreeMap<|"
     r"alloc::collections::btree::|bytes::|std::vec::IntoIter<|alloc::sync::).* as std::ops::Drop>::drop$",
 ]
